@@ -71,6 +71,9 @@ pub struct Case {
     pub tail_ms: u64,
     /// also wake the daemon at every expiry the reference cache computes
     pub forced_wakes: bool,
+    /// host names (by index) that are searched for with resolve_hostname from the start as well
+    #[serde(default)]
+    pub resolve_hosts: Vec<usize>,
 }
 
 #[derive(Clone, Debug)]
@@ -424,6 +427,9 @@ pub fn execute(case: &Case, seed: u64) -> Result<Run, String> {
         let now = w.now;
         w.daemons[di].set_now(now);
         let _ = w.daemons[di].browse(TYPES[*ty % 2]);
+    }
+    for h in &case.resolve_hosts {
+        let _ = w.daemons[di].resolve_hostname(&host_name(*h).to_escaped(), None);
     }
     w.settle();
     let mut insts: Vec<InstState> = case
